@@ -178,6 +178,12 @@ Theorem C01_xtab_roundtrip :
 Proof. exact xtab_roundtrip. Qed.
 Print Assumptions C01_xtab_roundtrip.
 
+(* --xvright (values right-aligned with spaces) with the default IPS/OPS, the space: the padding is more copies of the IPS *)
+Theorem C01_xtab_xvright_roundtrip :
+  forall w dedupe recs, wf_xtab SP recs = true -> read_xtab [SP] dedupe (write_xtab w [SP] true recs) = Some recs.
+Proof. exact xtab_xvright_roundtrip. Qed.
+Print Assumptions C01_xtab_xvright_roundtrip.
+
 (* ---- csvlite ---- *)
 (* heterogeneous streams included: a change of keys writes a blank line and a new header, which the reader takes as a
    schema change.  One-byte OFS = IFS = c (not CR, LF, 0xEF); records non-empty with unique keys; cells free of c, CR, LF
